@@ -24,7 +24,12 @@ void verif_fail_alloc_at(std::uint64_t k) noexcept;   // 0 = never; k = fail the
 std::uint64_t verif_alloc_count(void) noexcept;       // allocations attempted since last arm/reset
 std::uint64_t verif_live_allocs(void) noexcept;       // live heap blocks (model) / counted (native)
 std::uint64_t verif_live_bytes(void) noexcept;
-std::uint64_t verif_mutex_held(void) noexcept;      // number of std::mutex currently locked (ghost / interposed)
+std::uint64_t verif_mutex_held(void) noexcept;
+// own sequentialisation (preemption bound 1): the k-th atomic access executed from now on is the preemption point at which verif_interfere() runs
+void verif_yield_arm(std::uint64_t k) noexcept;
+void verif_yield_disarm(void) noexcept;
+std::uint64_t verif_yield_fired(void) noexcept;   // the preemption happened
+std::uint64_t verif_yield_seen(void) noexcept;    // atomic accesses executed since arming      // number of std::mutex currently locked (ghost / interposed)
 }
 
 #define PROP(c, msg) __CPROVER_assert((c), msg)
